@@ -5,6 +5,7 @@ import Lemmas.NumResolve
 import Lemmas.NumRun
 import Lemmas.NumCheck
 import Lemmas.NumRunEq
+import Lemmas.NumFront
 /-! C12 — no script, variable map or ledger state can crash the engine.
 Stage 1: at the level of `Spec` (the source-level interpreter).  `Spec.run` is a total Lean function — every
 recursion in it (`evalSource`/`evalSources`, `evalDest`/`evalKD`/`evalCaps`/`evalAllot`, `evalStmts`, `resolveVars`)
@@ -179,6 +180,13 @@ theorem runText_total (bs : List UInt8) (req : Request) (store : Store) :
   cases h : runBytes bs req store with
   | ok r => exact Or.inl ⟨r, rfl⟩
   | error e => exact Or.inr ⟨e, rfl, by cases e <;> simp⟩
+
+/-- **no text, variable map or ledger state can make the VM panic**: for every text (shorter than 2^64 characters)
+that the front end and the compiler accept — `front_wellFormed`: the side conditions of `vm_never_panics` hold of
+whatever the front end produces -/
+theorem vm_never_panics_text (t : String) (P : Script) (h : front t = some P) (hlen : t.toList.length < 18446744073709551616)
+    (prog : Program) (hc : compile P = .ok prog) (req : Request) (store : Store) : (VM.run prog req store).isPanic = false :=
+  vm_never_panics P prog hc (Num.front_wellFormed (by unfold front at h; exact h) hlen) req store
 
 /-- the lexer makes progress and loses nothing: every token (skipped ones included) is non-empty and the token
 texts, in order, concatenate to the input -/
